@@ -169,6 +169,7 @@ def run(ctx):
     ctx.rule("C08.6", "candidate loop: match_count only from the candidates in use; work-list re-seeded only from a validated better delegation or once from the deferred list")
     ctx.rule("C08.7", "every loop of the resolver has a progress step whose removal leaves no cycle (iterator next / work-list pop / await)")
     ctx.rule("C08.8", "every panic-capable site reachable from resolve() is discharged (guards on the indexed container, justified externals, mutex never poisoned)")
+    ctx.rule("C08.10", "an upstream reply cannot hang the decoder: every decoder loop consumes input or counts down a u16, compression pointers strictly descend, there is no call cycle (the rules of C03.2 - C03.4, decided here as well: a decoder that spins never yields, so no timeout can fire)")
     ctx.rule("C08.9", "dns_resolver builds ResourceRecords only in cache::to_rrs: everything returned was supplied by upstream or local data")
     ctx.decline("actual elapsed time and scheduler behaviour")
 
@@ -363,6 +364,11 @@ def run(ctx):
             ok = bool(rep) and all(not (A.reachable_tagged(fc, s_) & loop_hdrs) for a_, s_ in rep)
         ctx.check(ok, "C08.7", "follow_cnames:fresh-target", "seen.insert(target) only when !seen.contains(target) (else return None)",
                   "the visited set is not checked before following a CNAME", fc.loc(b))
+
+    # ---------------------------------------------------------------- C08.10
+    from . import C03
+    from ..core import RuleAlias
+    C03.run(RuleAlias(ctx, {"C03.2": "C08.10", "C03.3": "C08.10", "C03.4": "C08.10"}))
 
     # ---------------------------------------------------------------- C08.8
     from .. import panics as P
